@@ -6,7 +6,7 @@
    the model is unique and [cden] computes it; [vden] is the TRIPOLI-4 reading of a
    volume table. *)
 From Coq Require Import List ZArith NArith Bool Reals Permutation Lia.
-From T4V Require Import Base.Scalar C13.Model C13.Spec C13.Proofs C13.ProofsDedup C13.ProofsFill.
+From T4V Require Import Base.Scalar C13.Model C13.ModelTr C13.Spec C13.Proofs C13.ProofsDedup C13.ProofsFill C13.ProofsVol C13.ProofsTr.
 Import ListNotations.
 Open Scope Z_scope.
 
@@ -37,6 +37,17 @@ Print Assumptions C13_dedup_merges_tested.
 Theorem C13_desc_eqb_sound : forall a b : desc R, desc_eqb RS a b = true -> a = b.
 Proof. exact desc_eqb_RS. Qed.
 Print Assumptions C13_desc_eqb_sound.
+
+(* SurfaceT4.__hash__ is consistent with __eq__: the hash is the tuple hash [mix]
+   of exactly the components __eq__ compares, so for any element hash [h] that
+   respects == (Python: hash(0.0) = hash(-0.0), hash(1) = hash(1.0)) equal
+   surfaces hash alike - the dictionary of remove_duplicate_surfaces may be read
+   as "first stored key equal to the probe" *)
+Theorem C13_hash_consistent : forall T (S : Scalar T) (h : T -> Z) (mix : list Z -> Z),
+  (forall x y, seqb S x y = true -> h x = h y) ->
+  forall a b, desc_eqb S a b = true -> desc_hash h mix a = desc_hash h mix b.
+Proof. exact @desc_hash_consistent. Qed.
+Print Assumptions C13_hash_consistent.
 
 (* which number survives: never a larger one; at R the smallest number that
    carries the descriptor; every input number is renumbered *)
@@ -126,6 +137,55 @@ Example C13_example_helper_merge :
   exists out, finish ZS true helper_surfs helper_volus 5 6 = Ok out.
 Proof. exact helper_merge_example. Qed.
 
+(* ---- the written tables, --skip-deduplication off vs on ---- *)
+(* vmodel sigma rho t: rho gives every VOLU line of t its value (EQUA, then UNION /
+   INTE with the values of the volumes it names).  remove_empty_volumes keeps the
+   denotation: every rho of its input is a rho of its output, kept volumes keep
+   FICTIVE flag and provenance, and whatever it dropped is false under rho
+   (needs only that the two helper planes are consistent: x > 1 implies x > -1) *)
+Theorem C13_remove_empty_sound : forall (sigma rho : Z -> bool) u0 u1,
+  (sigma u0 = true -> sigma u1 = true) ->
+  forall dic dic', remove_empty_volumes dic u0 u1 = Ok dic' ->
+  NoDup (map fst dic) -> vmodel sigma rho dic ->
+  NoDup (map fst dic') /\ vmodel sigma rho dic' /\ tracks rho dic dic'.
+Proof. exact remove_empty_sound. Qed.
+Print Assumptions C13_remove_empty_sound.
+
+(* one run of the tail of convertMCNPGeometry + the SURF lines of the writer *)
+Theorem C13_finish_sound : forall (sense : desc R -> bool) skip surfs volus u0 u1 s' v3 w rho,
+  NoDup (map fst surfs) -> NoDup (map fst volus) ->
+  (sense_of sense surfs u0 = true -> sense_of sense surfs u1 = true) ->
+  finish RS skip surfs volus u0 u1 = Ok (s', v3, w) ->
+  vmodel (sense_of sense surfs) rho volus ->
+  vmodel (sense_of sense s') rho v3 /\
+  (forall k v, lookup k v3 = Some v ->
+     exists v0, lookup k volus = Some v0 /\ fictive v = fictive v0 /\ vorigin v = vorigin v0) /\
+  (forall k v0, lookup k volus = Some v0 -> lookup k v3 = None -> rho k = false \/ fictive v0 = true) /\
+  (forall s, In s w -> lookup s s' <> None).
+Proof. exact finish_sound. Qed.
+Print Assumptions C13_finish_sound.
+
+(* the WRITTEN tables with and without de-duplication: the same denotation rho
+   fits both, and a point (sense assignment) has the same owners - written,
+   non-FICTIVE volume number k with provenance [origin] and rho k = true; the
+   composition is attached to the volume number *)
+Theorem C13_written_same_dedup : forall (sense : desc R -> bool) surfs volus u0 u1 sa va wa sb vb wb rho,
+  NoDup (map fst surfs) -> NoDup (map fst volus) ->
+  (sense_of sense surfs u0 = true -> sense_of sense surfs u1 = true) ->
+  vmodel (sense_of sense surfs) rho volus ->
+  finish RS false surfs volus u0 u1 = Ok (sa, va, wa) ->
+  finish RS true surfs volus u0 u1 = Ok (sb, vb, wb) ->
+  vmodel (sense_of sense sa) rho va /\ vmodel (sense_of sense sb) rho vb /\
+  forall k origin, owner rho va k origin <-> owner rho vb k origin.
+Proof. exact written_same_dedup. Qed.
+Print Assumptions C13_written_same_dedup.
+
+(* the fuelled reading vden used above agrees with every denotation *)
+Theorem C13_vden_model : forall sigma rho dic, vmodel sigma rho dic ->
+  forall fuel k b, vden fuel sigma dic k = Some b -> b = rho k.
+Proof. exact vden_model. Qed.
+Print Assumptions C13_vden_model.
+
 (* a second way in which the default options fail where --skip-deduplication
    succeeds: every volume becomes patently empty after de-duplication (the only
    live cell is  -1 2  with 1, 2 both PX 2) and the writer raises ValueError on
@@ -158,6 +218,13 @@ Theorem C13_inline_score_den : forall T (S : Scalar T) (rank : Z -> nat) (sigma 
   (forall k, lookup k dic <> None -> cden rank sigma dic' k = cden rank sigma dic k).
 Proof. exact @inline_score_den. Qed.
 Print Assumptions C13_inline_score_den.
+
+(* find_occurrences (the input of the score): occurrences[sub] lists only cells
+   whose geometry mentions sub *)
+Theorem C13_find_occurrences_sound : forall dic occ, find_occurrences dic = Ok occ ->
+  forall sub l, lookup sub occ = Some l -> forall key, In key l -> mentions dic key sub.
+Proof. exact find_occurrences_sound. Qed.
+Print Assumptions C13_find_occurrences_sound.
 
 (* inlining does what the option says: afterwards no cell mentions a cell of
    to_inline (given that no geometry is a bare CellRef, as pot_fill guarantees) *)
@@ -196,9 +263,49 @@ Theorem C13_fill_geometry_den : forall sigma rho dic fd fg key cell elt ec,
 Proof. exact fill_geometry_den. Qed.
 Print Assumptions C13_fill_geometry_den.
 
+(* ---- FILL with transformations (FILL=n (tr), TRCL of the filled cell) ---- *)
+(* P = points, [act t p] = the point at which the original object is looked at
+   (interface law of C04: a surface made by pot_transform from s with t has, at p,
+   the sense s has at act t p).  (senv, D) is a semantics of a state when the
+   recorded surfaces obey the law and D is a model of the cell table at every
+   point.  cell_transform (cache on or off, nested CellRefs included): in every
+   semantics of the resulting state the new cell is the old cell seen through t *)
+Theorem C13_cell_transform_den : forall (Tr P : Type) (tr_eqb : Tr -> Tr -> bool) (act : Tr -> P -> P),
+  (forall a b, tr_eqb a b = true -> forall p, act a p = act b p) ->
+  forall fuel t use_cache c st k st', wf act st ->
+  ctransform tr_eqb fuel t use_cache c st = Ok (k, st') ->
+  wf act st' /\ text st st' /\
+  forall senv D, sem act st' senv D -> forall p, D k p = D c (act t p).
+Proof. intros Tr P tr_eqb act H fuel t uc. exact (ctransform_spec tr_eqb act H fuel t uc). Qed.
+Print Assumptions C13_cell_transform_den.
+
+(* C13_fill_geometry_den with transformations: for the four combinations of
+   --always-inline-filled / --always-inline-filling (the second also switches the
+   cell_transform cache off), every cell pot_fill creates for container [key] and
+   filler e denotes, at every point p,  container at p  AND  filler at the point
+   reached through the FILL transformation (or the TRCLs in order) *)
+Theorem C13_fill_geometry_den_tr : forall (Tr P : Type) (tr_eqb : Tr -> Tr -> bool) (act : Tr -> P -> P),
+  (forall a b, tr_eqb a b = true -> forall p, act a p = act b p) ->
+  forall fuel fd fg ts key cell elts st acc ks st', wf act st ->
+  lookup key (tcells st) = Some cell ->
+  make_cells_tr tr_eqb fuel fd fg ts key cell elts st acc = Ok (ks, st') ->
+  wf act st' /\ text st st' /\
+  exists news, ks = acc ++ news /\
+    (* the record of each new cell: universe of the container, no FILL, the filler's
+       material and provenance + (innermost filler, outermost container) - the same
+       for the four flag combinations; only its geometry depends on them *)
+    Forall2 (fun k' e => exists ec, lookup e (tcells st') = Some ec /\
+                                    lookup k' (tcells st') = Some (filled_cell key cell e ec
+                                       (cgeom (match lookup k' (tcells st') with Some c => c | None => cell end))))
+            news elts /\
+    forall senv D, sem act st' senv D ->
+      Forall2 (fun k' e => forall p, D k' p = D key p && D e (fold_right act p ts)) news elts.
+Proof. intros Tr P tr_eqb act H. exact (make_cells_tr_den tr_eqb act H). Qed.
+Print Assumptions C13_fill_geometry_den_tr.
+
 (* the FILL loop under two pairs of inline flags runs in lock-step: same outcome
    (same exception or both succeed), same counter, same keys / universes / FILL
-   marks in the same order, and the two tables have exactly the same models *)
+   marks / provenance (idorigin) / material in the same order, and the two tables have exactly the same models *)
 Theorem C13_fill_flags_lockstep : forall fuel fd1 fg1 fd2 fg2 dic counter,
   (forall k, lookup k dic <> None -> k <= counter) ->
   match fill_loop fuel fd1 fg1 dic (fill_keys dic) (dic, counter),
@@ -248,11 +355,11 @@ Example C13_example_options :
   let dic := [(1, mkCell 0 (Some 1) (GNode true [GSurf (-1)])); (2, mkCell 0 None (GNode true [GSurf 1]));
               (10, mkCell 1 None (GNode true [GSurf (-2)])); (11, mkCell 1 None (GNode true [GSurf 2]))] in
   cell_stage 10 (mkOptions false false false []) dic 11 =
-    Ok (dic ++ [(12, mkCell 0 None (GNode true [GRef 1; GRef 10]));
-                (13, mkCell 0 None (GNode true [GRef 1; GRef 11]))], 13) /\
+    Ok (dic ++ [(12, MkCell 0 None (GNode true [GRef 1; GRef 10]) [(10, 1)] 0);
+                (13, MkCell 0 None (GNode true [GRef 1; GRef 11]) [(11, 1)] 0)], 13) /\
   cell_stage 10 (mkOptions true true true [1; 10]) dic 11 =
-    Ok (dic ++ [(12, mkCell 0 None (GNode true [GNode true [GSurf (-1)]; GNode true [GSurf (-2)]]));
-                (13, mkCell 0 None (GNode true [GNode true [GSurf (-1)]; GNode true [GSurf 2]]))], 13).
+    Ok (dic ++ [(12, MkCell 0 None (GNode true [GNode true [GSurf (-1)]; GNode true [GSurf (-2)]]) [(10, 1)] 0);
+                (13, MkCell 0 None (GNode true [GNode true [GSurf (-1)]; GNode true [GSurf 2]]) [(11, 1)] 0)], 13).
 Proof. cbv zeta. split; vm_compute; reflexivity. Qed.
 
 (* a two-level table: cell 1 = -1 AND cell 10, cell 10 = 2 : cell 20, cell 20 = -3;
